@@ -84,7 +84,7 @@ def _pop_end(call):
 
 
 def check(ctx):
-    mod = ctx.mod(TEAM)
+    ctx.mod(TEAM)
     cls = ctx.cls(TEAM, "Team")
     fns = funcs_in_class(cls)
     meths = methods(cls)
@@ -92,7 +92,6 @@ def check(ctx):
     # ---------------- (a) coordinator confinement -----------------------------------------------------
     handed = {id(f): _handed_to(f, _is_coord_do) for q, f in fns}
     cand = {n for n in meths if n.startswith("_") and not n.startswith("__")}
-    qual_of = {id(f): q for q, f in fns}
 
     def on_coordinator(f):
         if handed.get(id(f)):
